@@ -11,7 +11,7 @@ svs    := S<id>~<name hex>~<unit hex>~<c|k|s|e|a|z>~<val>;…            cell / 
 ecs    := E<id>~<name hex>~<num>~<num>~<num>~<unit hex>~<i|f>~<num>;…  min max default ; value_type integer or float ; current value
 alarms := A<id>~<code>~<text hex>~<0|1>~<0|1>;…                         enabled, set
 num    := i<int> | f<num>/<k> | fnan | finf | f-inf        ecv := num | o  (not a number)
-op     := S3:<ids> | S11:<ids> | E13:<ids> | E29:<ids> | E15:<id>=<ecv>,… | A3:<aled>:<alid> | A5:<ids> | A7 | AS:<id> | AC:<id> | V<id>=<val>
+op     := S3:<ids> | S11:<ids> | E13:<ids> | E29:<ids> | E15:<id>=<ecv>,… | A3:<aled>:<alid> | A5:<ids> | A7 | AS:<id> | AC:<id> | ASN:<id> | ACN:<id> (S5F1 not answered) | V<id>=<val>
 answer := ok (<out>@<id>=<num>;…|<ect>|<tf>@<id>=<en><set>;…)*
 ```
 -/
@@ -102,8 +102,10 @@ def parseOp (w : String) : Option Op :=
     | ["A3", aled, alid] => do pure (Op.s5f3 (← aled.toNat?) (← parseId alid))
     | ["A5", ids] => (parseIds ids).map Op.s5f5
     | ["A7"] => some Op.s5f7
-    | ["AS", i] => (parseId i).map Op.setAlarm
-    | ["AC", i] => (parseId i).map Op.clearAlarm
+    | ["AS", i] => (parseId i).map (Op.setAlarm · true)
+    | ["AC", i] => (parseId i).map (Op.clearAlarm · true)
+    | ["ASN", i] => (parseId i).map (Op.setAlarm · false)      -- the host does not answer the S5F1 (T3 expires)
+    | ["ACN", i] => (parseId i).map (Op.clearAlarm · false)
     | _ => none
 
 def showRows (rs : List AlarmRow) : String :=
